@@ -88,3 +88,49 @@ Proof. vm_compute. reflexivity. Qed.
 
 Lemma powers_cover : 3 ^ 21 > DGRP_MAX /\ 5 ^ 14 > DGRP_MAX /\ 7 ^ 12 > DGRP_MAX.
 Proof. vm_compute. repeat split; reflexivity. Qed.
+
+From Coq Require Import ZifyBool ZifyN.
+(* the reader's location for descriptor block i equals the place where the writer
+   (ext2fs_super_and_bgd_loc2, used by ext2fs_flush) puts that block's copy:
+   the first group of the meta group when the primary superblock is used, the second when a backup is *)
+Lemma desc_loc_primary_lemma s bc i : meta_bg s = true -> first_meta_bg s <= i -> 1 < desc_per_block s ->
+  0 < blocks_per_group s \/ 0 < first_data_block s \/ blocksize s <> 1024 \/ 0 < i ->
+  let g := desc_per_block s * i in
+  (group_first_block s g = 0 -> blocksize s <> 1024) ->
+  descriptor_block_loc s bc (first_data_block s) i = snd (fst (super_and_bgd_loc s g)).
+Proof.
+  intros Hm Hi Hd _ g Hz. unfold descriptor_block_loc, super_and_bgd_loc. fold g.
+  rewrite Hm. cbn [negb orb].
+  replace (i <? first_meta_bg s) with false by lia.
+  rewrite N.eqb_refl. cbn [negb andb].
+  assert (Hdiv : g / desc_per_block s = i) by (unfold g; rewrite N.mul_comm; apply N.div_mul; lia).
+  rewrite Hdiv. replace (i <? first_meta_bg s) with false by lia.
+  assert (Hmod : g mod desc_per_block s = 0) by (unfold g; rewrite N.mul_comm; apply N.mod_mul; lia).
+  rewrite Hmod. rewrite N.eqb_refl. cbn [orb].
+  destruct ((group_first_block s g =? 0) && (blocksize s =? 1024)) eqn:E.
+  - apply Bool.andb_true_iff in E as [E1 E2]. apply N.eqb_eq in E1, E2. exfalso. exact (Hz E1 E2).
+  - destruct (bg_has_super s g); reflexivity.
+Qed.
+
+Lemma desc_loc_backup_lemma s bc gb i : meta_bg s = true -> first_meta_bg s <= i -> 2 < desc_per_block s ->
+  0 < blocks_per_group s -> gb <> first_data_block s ->
+  let g := desc_per_block s * i in
+  group_first_block s g + (if bg_has_super s g then 1 else 0) + blocks_per_group s < bc ->
+  descriptor_block_loc s bc gb i = snd (fst (super_and_bgd_loc s (g + 1))).
+Proof.
+  intros Hm Hi Hd Hb Hg g Hlt. unfold descriptor_block_loc, super_and_bgd_loc. fold g.
+  rewrite Hm. cbn [negb orb].
+  replace (i <? first_meta_bg s) with false by lia.
+  replace (gb =? first_data_block s) with false by lia. cbn [negb andb].
+  replace (group_first_block s g + (if bg_has_super s g then 1 else 0) + blocks_per_group s <? bc) with true by lia.
+  assert (Hdiv : (g + 1) / desc_per_block s = i).
+  { unfold g. rewrite N.mul_comm, N.add_comm. rewrite N.div_add by lia. rewrite N.div_small by lia. lia. }
+  rewrite Hdiv. replace (i <? first_meta_bg s) with false by lia.
+  assert (Hmod : (g + 1) mod desc_per_block s = 1).
+  { unfold g. rewrite N.mul_comm, N.add_comm. rewrite N.mod_add by lia. apply N.mod_small. lia. }
+  rewrite Hmod. cbn [N.eqb Pos.eqb orb].
+  replace (1 =? 0) with false by reflexivity. cbn [orb].
+  assert (Hg1 : group_first_block s (g + 1) = group_first_block s g + blocks_per_group s) by (unfold group_first_block; lia).
+  replace ((group_first_block s (g + 1) =? 0) && (blocksize s =? 1024)) with false by lia.
+  rewrite Hg1. destruct (bg_has_super s (g + 1)); reflexivity.
+Qed.
